@@ -20,6 +20,7 @@ Definition cur_pfacts : pfacts :=
      pf_writer_err_handled := Gen.Facts.proto_writer_err_handled;
      pf_view_err_handled := Gen.Facts.proto_view_err_handled;
      pf_stats_stdout_handled := Gen.Facts.proto_stats_stdout_handled;
+     pf_handler_own_counter := Gen.Facts.proto_handler_own_counter;
      pf_dcap := N.to_nat Gen.Facts.proto_dcap;
      pf_vcap_min := N.to_nat Gen.Facts.proto_vcap_min |}.
 
@@ -149,7 +150,8 @@ Definition tstep (f : pfacts) (e : tev) (s : state) : option state :=
                             s_r := s_r s1; s_dq := s_dq s1; s_mrecv := s_mrecv s1; s_a := s_a s1;
                             s_alive := s_alive s1; s_vs := s_vs s1; s_w := s_w s1; s_wbuf := s_wbuf s1;
                             s_wout := s_wout s1; s_iq := s_iq s1; s_sq := s_sq s1; s_m := s_m s1; s_c := s_c s1;
-                            s_errs := s_errs s1; s_fatal := s_fatal s1; s_panic := s_panic s1 |} in
+                            s_errs := s_errs s1; s_fatal := s_fatal s1; s_panic := s_panic s1;
+                            s_sigs := s_sigs s1; s_hardexit := s_hardexit s1 |} in
                stepping f (L_writer true) s2 (at_w 4)
            | None => None
            end
